@@ -202,6 +202,12 @@ def run(ctx):
                                            f"{badpair[2]} and {badpair[3]}" if badpair else f"shard -f {spec_list}: status {st}")
             continue
         # cache -k: the answer for a line is the child's answer to the first line with the same selected fields
+        if len(rs) >= 2:
+            # for cache also lines that LACK a selected field (ragged columns): "a<TAB>x" selects ("a"), "<TAB>y<TAB>a" selects ("", "a")
+            ls = [l for l in all_lines(4, 9) if b"\n" not in l]
+            rng.shuffle(ls)
+            data = b"".join(l + b"\n" for l in ls)
+            sp = pvlib.run_lines(pvlib.PVDRIVER, [f"fields.spec.range {hx(l)} 09 " + ",".join(f"{b}:{e}" for b, e in rs) for l in ls])
         st, out, err = pvlib.run_tool([ctx.bin("cache"), "-k", spec_list, "cat"], data, env=pvlib.san_env(), timeout=60)
         ctx.count("cache-k", 1, [spec_list])
         first = {}
